@@ -83,6 +83,61 @@ long vf_stream_content(void *is, char *buf, long cap) { return vf_stream_content
 
 void vf_guarded(void *p, size_t n, void *mutex, const char *name) { (void) p; (void) n; (void) mutex; (void) name; }
 void vf_guard_enable(int on) { (void) on; }
+#ifdef VF_WATCH_TABLE
+/* confirmation build (vf/runner.py build_watch_native): the variables engine B saw written sit alone on pages of
+ * section "vfwatch"; while the watch is on the pages are read-only and the first store to each is reported */
+#include <signal.h>
+#include <sys/mman.h>
+#include <unistd.h>
+#include <stdint.h>
+extern char __start_vfwatch[], __stop_vfwatch[];
+extern long vf_watch_n; extern char *vf_watch_addr[]; extern long vf_watch_size[]; extern char *vf_watch_names[];
+static int vf_watch_on = 0;
+static void vf_on_segv(int sig, siginfo_t *si, void *ctx)
+{
+	char *a = (char *) si->si_addr;
+	(void) ctx;
+	if (vf_watch_on && a >= __start_vfwatch && a < __stop_vfwatch)
+	{
+		for (long i = 0; i < vf_watch_n; i++)
+		{
+			uintptr_t lo = (uintptr_t) vf_watch_addr[i] & ~(uintptr_t) 4095;
+			uintptr_t hi = ((uintptr_t) vf_watch_addr[i] + (uintptr_t) vf_watch_size[i] + 4095) & ~(uintptr_t) 4095;
+			if ((uintptr_t) a >= lo && (uintptr_t) a < hi)
+			{
+				char b[256];
+				int n = snprintf(b, sizeof b, "CHECK lock.discipline.%s 0\n", vf_watch_names[i]);
+				fflush(stdout);
+				(void) !write(1, b, (size_t) n);
+				mprotect((void *) lo, hi - lo, PROT_READ | PROT_WRITE);   /* report once, then let the store through */
+				return;
+			}
+		}
+		mprotect(__start_vfwatch, (size_t) (__stop_vfwatch - __start_vfwatch), PROT_READ | PROT_WRITE);
+		return;
+	}
+	signal(sig, SIG_DFL);
+	raise(sig);
+}
+void vf_watch_shared_state(int on)
+{
+	static int installed = 0;
+	size_t len = (size_t) (__stop_vfwatch - __start_vfwatch) & ~(size_t) 4095;
+	if (!installed)
+	{
+		struct sigaction sa;
+		memset(&sa, 0, sizeof sa);
+		sa.sa_sigaction = vf_on_segv; sa.sa_flags = SA_SIGINFO | SA_NODEFER;
+		sigaction(SIGSEGV, &sa, 0);
+		installed = 1;
+	}
+	fflush(stdout);
+	vf_watch_on = on;
+	mprotect(__start_vfwatch, len, on ? PROT_READ : (PROT_READ | PROT_WRITE));
+}
+#else
+void vf_watch_shared_state(int on) { (void) on; }
+#endif
 long vf_locks_held(void) { return 0; }
 
 /* layout tables are exported by engine B (build dir, file layout.<type>.txt: "offset size kind") */
